@@ -348,6 +348,15 @@ VF_PART(hermite_condexp)
   });
 }
 
+// Parts that re-judge the clauses on a re-used object set KEYPFX ("reuse:<class>:<steps>:"); the generic keys of the judging
+// functions are then reported under that prefix, the mechanism keys of the known _defineBounds defects stay as they are.
+static std::string KEYPFX;
+static std::string KK(const std::string& key)
+{
+  if (KEYPFX.empty()) return key;
+  size_t p = key.find(':');
+  return KEYPFX + (p == std::string::npos ? key : key.substr(p + 1));
+}
 // ================================================================================================
 // PART 4: Hermite anamorphosis round trips
 // tolerance of the method, read from AnamHermite::rawToTransformValue:
@@ -382,7 +391,7 @@ static void judgeHermite(Ctx& C, AnamHermite* a, const std::string& desc, const 
   for (double v : {aymin, aymax, azmin, azmax, pymin, pymax, pzmin, pzmax})
     if (FFFF(v) || std::isnan(v))
     {
-      C.violation("hermite-anam:bounds-undefined", desc + ": a reported bound is undefined/NaN", kase);
+      C.violation(KK("hermite-anam:bounds-undefined"), desc + ": a reported bound is undefined/NaN", kase);
       return;
     }
   std::string bnds = " [reported ay=[" + fmt(aymin) + "," + fmt(aymax) + "] az=[" + fmt(azmin) + "," + fmt(azmax) + "] py=[" + fmt(pymin) + "," + fmt(pymax) + "] pz=[" + fmt(pzmin) + "," + fmt(pzmax) + "]]";
@@ -410,7 +419,7 @@ static void judgeHermite(Ctx& C, AnamHermite* a, const std::string& desc, const 
   }
   C.outcome(azInside ? "bounds:absolute-inside-practical" : ayByInverse ? "bounds:ay-is-another-preimage-of-az" : "bounds:nested");
   auto mechKey = [&](const std::string& other) {
-    return azInside ? std::string("hermite-anam:bounds:absolute-inside-practical") : ayByInverse ? std::string("hermite-anam:bounds:ay-by-inverse-search") : other;
+    return azInside ? std::string("hermite-anam:bounds:absolute-inside-practical") : ayByInverse ? std::string("hermite-anam:bounds:ay-by-inverse-search") : KK(other);
   };
   double zlo = std::max(azmin, pzmin), zhi = std::min(azmax, pzmax);
   double ylo = std::max(aymin, pymin), yhi = std::min(aymax, pymax);
@@ -510,13 +519,13 @@ static void judgeHermite(Ctx& C, AnamHermite* a, const std::string& desc, const 
           C.eval();
           C.outcome("linear-zone:z-y-z");
           if (!(std::fabs(z2 - z) <= 1e-9 * zscale))
-            C.violation("hermite-anam:linear-zone", desc + ": z=" + fmt(z) + " in the extension zone [" + fmt(za) + "," + fmt(zb) + "] -> y=" + fmt(y) + " -> z'=" + fmt(z2) + bnds, kase);
+            C.violation(KK("hermite-anam:linear-zone"), desc + ": z=" + fmt(z) + " in the extension zone [" + fmt(za) + "," + fmt(zb) + "] -> y=" + fmt(y) + " -> z'=" + fmt(z2) + bnds, kase);
           double yy = ya + (yb - ya) * (k / 8.);
           double zz = a->transformToRawValue(yy);
           double yy2 = a->rawToTransformValue(zz);
           C.eval();
           if (!(std::fabs(yy2 - yy) <= 1e-9 * std::max(1., std::fabs(yy))))
-            C.violation("hermite-anam:linear-zone", desc + ": y=" + fmt(yy) + " in the extension zone [" + fmt(ya) + "," + fmt(yb) + "] -> z=" + fmt(zz) + " -> y'=" + fmt(yy2) + bnds, kase);
+            C.violation(KK("hermite-anam:linear-zone"), desc + ": y=" + fmt(yy) + " in the extension zone [" + fmt(ya) + "," + fmt(yb) + "] -> z=" + fmt(zz) + " -> y'=" + fmt(yy2) + bnds, kase);
         }
       }
     }
@@ -666,6 +675,110 @@ VF_PART(anam_hermite)
   });
 }
 
+// judges one fitted empirical anamorphosis (the clauses of part anam_empirical); false when the case was excluded or stopped
+static bool judgeEmpirical(Ctx& C, AnamEmpirical* a, bool normalScore, const VectorDouble& data, const VectorDouble& z, const std::string& desc, const std::string& kase, int& n, int& nseg, int& nflat)
+{
+  const VectorDouble& Z = a->getZDisc();
+  const VectorDouble& Y = a->getYDisc();
+  n = a->getNDisc();
+  if (n < 2 || (int)Z.size() != n || (int)Y.size() != n) { C.skip(); C.outcome("table-with-<2-classes"); return false; }
+  bool finite = true, sorted = true;
+  for (int i = 0; i < n; i++) finite = finite && std::isfinite(Z[i]) && std::isfinite(Y[i]);
+  // Y values come from law_invcdf_gaussian, a bisection stopped at 1e-7: the table is sorted up to that accuracy
+  const double YTOL = 2e-7;
+  for (int i = 1; i < n; i++) sorted = sorted && Z[i - 1] <= Z[i] && Y[i - 1] <= Y[i] + YTOL;
+  if (!finite) { C.violation(KK("empirical-anam:table-not-finite"), desc + ": discretization table contains NaN/inf", kase); return false; }
+  if (!sorted)
+  {
+    // mechanism: law_invcdf_gaussian(p) returns (-)0 instead of about -8.2 for 0 < p < 1.1e-16 (it evaluates log(1-(1-p)))
+    bool tiny = false; int at = 0;
+    for (int i = 1; i < n; i++) if (Y[i - 1] > Y[i] + YTOL) { at = i; tiny = (Y[i - 1] == 0 && Y[i] < -1e-3 && law_invcdf_gaussian(1e-20) == 0); break; }
+    C.outcome("table-not-sorted");
+    C.violation(KK(tiny ? "empirical-anam:table-not-sorted:invcdf-of-tiny-probability" : "empirical-anam:table-not-sorted"),
+                desc + ": discretization table is not non-decreasing: (Z,Y)[" + std::to_string(at - 1) + "]=(" + fmt(Z[at - 1]) + "," + fmt(Y[at - 1]) + ") (Z,Y)[" + std::to_string(at) + "]=(" + fmt(Z[at]) + "," + fmt(Y[at]) + ")", kase);
+    return false;
+  }
+  // reported validity interval = range of the table
+  double ymin = 1e300, ymax = -1e300;
+  for (int i = 0; i < n; i++) { ymin = std::min(ymin, Y[i]); ymax = std::max(ymax, Y[i]); }
+  if (a->getPzmin() != Z[0] || a->getPzmax() != Z[n - 1] || a->getPymin() != ymin || a->getPymax() != ymax)
+    C.violation(KK("empirical-anam:bounds"), desc + ": reported practical bounds differ from the table range", kase);
+  double zrange = Z[n - 1] - Z[0], zscale = std::max({std::fabs(Z[0]), std::fabs(Z[n - 1]), zrange});
+  nseg = 0; nflat = 0;
+  for (int i = 0; i + 1 < n; i++)
+  {
+    double dz = Z[i + 1] - Z[i], dy = Y[i + 1] - Y[i];
+    if (!(dz > 1e-9 * zscale) || !(dy > 1e-5)) { nflat++; continue; }
+    nseg++;
+    // knots are judged only when both adjacent segments are increasing (a knot of a tie group has no inverse)
+    bool leftOK = (i == 0) || ((Z[i] - Z[i - 1]) > 1e-9 * zscale && (Y[i] - Y[i - 1]) > 1e-5);
+    bool rightOK = (i + 2 >= n) || ((Z[i + 2] - Z[i + 1]) > 1e-9 * zscale && (Y[i + 2] - Y[i + 1]) > 1e-5);
+    for (int k = 0; k <= 4; k++)
+    {
+      if ((k == 0 && !leftOK) || (k == 4 && !rightOK)) { C.skip(); C.outcome("knot-of-a-tie-group-excluded"); continue; }
+      double f = k / 4.;
+      double zz = Z[i] + dz * f;
+      double yy = a->rawToTransformValue(zz);
+      double z2 = a->transformToRawValue(yy);
+      C.eval();
+      // conditioning of the interpolation: relative rounding of yy (1e-16 * |Y|/dy) times dz
+      double tolz = 1e-12 * (zscale + dz * std::max(std::fabs(Y[i]), std::fabs(Y[i + 1])) / dy);
+      if (!(std::fabs(z2 - zz) <= tolz))
+        C.violation(KK("empirical-anam:z-y-z"), desc + ": z=" + fmt(zz) + " (segment " + std::to_string(i) + " Z=[" + fmt(Z[i]) + "," + fmt(Z[i + 1]) + "] Y=[" + fmt(Y[i]) + "," + fmt(Y[i + 1]) + "]) -> y=" + fmt(yy) + " -> z'=" + fmt(z2), kase);
+      if (!(yy >= Y[i] - 1e-12 && yy <= Y[i + 1] + 1e-12))
+        C.violation(KK("empirical-anam:y-outside-segment"), desc + ": z=" + fmt(zz) + " in segment " + std::to_string(i) + " maps to y=" + fmt(yy) + " outside [" + fmt(Y[i]) + "," + fmt(Y[i + 1]) + "]", kase);
+      double y0 = Y[i] + dy * f;
+      double z1 = a->transformToRawValue(y0);
+      double y2 = a->rawToTransformValue(z1);
+      C.eval();
+      double toly = 1e-12 * (std::max({1., std::fabs(Y[i]), std::fabs(Y[i + 1])}) + dy * std::max(std::fabs(Z[i]), std::fabs(Z[i + 1])) / dz);
+      if (!(std::fabs(y2 - y0) <= toly))
+        C.violation(KK("empirical-anam:y-z-y"), desc + ": y=" + fmt(y0) + " (segment " + std::to_string(i) + ") -> z=" + fmt(z1) + " -> y'=" + fmt(y2), kase);
+    }
+  }
+  // monotone (non-decreasing) in both directions over the whole reported interval and beyond (clamped)
+  {
+    double prev = -1e300; int bad = 0;
+    for (int k = -8; k <= 264; k++)
+    {
+      double zz = Z[0] + zrange * (k / 256.);
+      double yy = a->rawToTransformValue(zz);
+      C.eval();
+      if (yy < prev - YTOL) bad++;
+      prev = yy;
+    }
+    double yr = ymax - ymin;
+    prev = -1e300;
+    for (int k = -8; k <= 264; k++)
+    {
+      double yy = ymin + yr * (k / 256.);
+      double zz = a->transformToRawValue(yy);
+      C.eval();
+      if (zz < prev - 1e-12 * zscale) bad++;
+      prev = zz;
+    }
+    if (bad) C.violation(KK("empirical-anam:monotone"), desc + ": " + std::to_string(bad) + " decreasing steps on the 256-point ladders of the reported interval", kase);
+  }
+  // data values themselves (normal score mode: every datum is a knot): z -> y -> z exactly
+  if (normalScore)
+    for (double v : data)
+    {
+      double yy = a->rawToTransformValue(v);
+      double z2 = a->transformToRawValue(yy);
+      C.eval();
+      if (z2 != v) C.violation(KK("empirical-anam:datum"), desc + ": datum z=" + fmt(v) + " -> y=" + fmt(yy) + " -> z'=" + fmt(z2) + " (a knot of the table must come back exactly)", kase);
+    }
+  // vector interface keeps TEST
+  {
+    VectorDouble yv = a->rawToGaussianVector(z), zv = a->gaussianToRawVector(yv);
+    bool ok = yv.size() == z.size() && zv.size() == z.size();
+    for (size_t i = 0; ok && i < z.size(); i++) ok = FFFF(z[i]) ? (FFFF(yv[i]) && FFFF(zv[i])) : (yv[i] == a->rawToTransformValue(z[i]) && zv[i] == a->transformToRawValue(yv[i]));
+    C.eval();
+    if (!ok) C.violation(KK("empirical-anam:vector-interface"), desc + ": vector calls differ from scalar calls or lose TEST", kase);
+  }
+  return true;
+}
+
 // ================================================================================================
 // PART 5: empirical anamorphosis (normal score table / Gaussian dilution / lognormal dilution)
 // The transform is a piecewise linear interpolation of the table (ZDisc, YDisc) the object reports; on every strictly
@@ -712,105 +825,8 @@ VF_PART(anam_empirical)
       delete a;
       return;
     }
-    const VectorDouble& Z = a->getZDisc();
-    const VectorDouble& Y = a->getYDisc();
-    int n = a->getNDisc();
-    if (n < 2 || (int)Z.size() != n || (int)Y.size() != n) { C.skip(); C.outcome("table-with-<2-classes"); delete a; return; }
-    bool finite = true, sorted = true;
-    for (int i = 0; i < n; i++) finite = finite && std::isfinite(Z[i]) && std::isfinite(Y[i]);
-    // Y values come from law_invcdf_gaussian, a bisection stopped at 1e-7: the table is sorted up to that accuracy
-    const double YTOL = 2e-7;
-    for (int i = 1; i < n; i++) sorted = sorted && Z[i - 1] <= Z[i] && Y[i - 1] <= Y[i] + YTOL;
-    if (!finite) { C.violation("empirical-anam:table-not-finite", desc + ": discretization table contains NaN/inf", std::to_string(id)); delete a; return; }
-    if (!sorted)
-    {
-      // mechanism: law_invcdf_gaussian(p) returns (-)0 instead of about -8.2 for 0 < p < 1.1e-16 (it evaluates log(1-(1-p)))
-      bool tiny = false; int at = 0;
-      for (int i = 1; i < n; i++) if (Y[i - 1] > Y[i] + YTOL) { at = i; tiny = (Y[i - 1] == 0 && Y[i] < -1e-3 && law_invcdf_gaussian(1e-20) == 0); break; }
-      C.outcome("table-not-sorted");
-      C.violation(tiny ? "empirical-anam:table-not-sorted:invcdf-of-tiny-probability" : "empirical-anam:table-not-sorted",
-                  desc + ": discretization table is not non-decreasing: (Z,Y)[" + std::to_string(at - 1) + "]=(" + fmt(Z[at - 1]) + "," + fmt(Y[at - 1]) + ") (Z,Y)[" + std::to_string(at) + "]=(" + fmt(Z[at]) + "," + fmt(Y[at]) + ")", std::to_string(id));
-      delete a;
-      return;
-    }
-    // reported validity interval = range of the table
-    double ymin = 1e300, ymax = -1e300;
-    for (int i = 0; i < n; i++) { ymin = std::min(ymin, Y[i]); ymax = std::max(ymax, Y[i]); }
-    if (a->getPzmin() != Z[0] || a->getPzmax() != Z[n - 1] || a->getPymin() != ymin || a->getPymax() != ymax)
-      C.violation("empirical-anam:bounds", desc + ": reported practical bounds differ from the table range", std::to_string(id));
-    double zrange = Z[n - 1] - Z[0], zscale = std::max({std::fabs(Z[0]), std::fabs(Z[n - 1]), zrange});
-    int nseg = 0, nflat = 0;
-    for (int i = 0; i + 1 < n; i++)
-    {
-      double dz = Z[i + 1] - Z[i], dy = Y[i + 1] - Y[i];
-      if (!(dz > 1e-9 * zscale) || !(dy > 1e-5)) { nflat++; continue; }
-      nseg++;
-      // knots are judged only when both adjacent segments are increasing (a knot of a tie group has no inverse)
-      bool leftOK = (i == 0) || ((Z[i] - Z[i - 1]) > 1e-9 * zscale && (Y[i] - Y[i - 1]) > 1e-5);
-      bool rightOK = (i + 2 >= n) || ((Z[i + 2] - Z[i + 1]) > 1e-9 * zscale && (Y[i + 2] - Y[i + 1]) > 1e-5);
-      for (int k = 0; k <= 4; k++)
-      {
-        if ((k == 0 && !leftOK) || (k == 4 && !rightOK)) { C.skip(); C.outcome("knot-of-a-tie-group-excluded"); continue; }
-        double f = k / 4.;
-        double zz = Z[i] + dz * f;
-        double yy = a->rawToTransformValue(zz);
-        double z2 = a->transformToRawValue(yy);
-        C.eval();
-        // conditioning of the interpolation: relative rounding of yy (1e-16 * |Y|/dy) times dz
-        double tolz = 1e-12 * (zscale + dz * std::max(std::fabs(Y[i]), std::fabs(Y[i + 1])) / dy);
-        if (!(std::fabs(z2 - zz) <= tolz))
-          C.violation("empirical-anam:z-y-z", desc + ": z=" + fmt(zz) + " (segment " + std::to_string(i) + " Z=[" + fmt(Z[i]) + "," + fmt(Z[i + 1]) + "] Y=[" + fmt(Y[i]) + "," + fmt(Y[i + 1]) + "]) -> y=" + fmt(yy) + " -> z'=" + fmt(z2), std::to_string(id));
-        if (!(yy >= Y[i] - 1e-12 && yy <= Y[i + 1] + 1e-12))
-          C.violation("empirical-anam:y-outside-segment", desc + ": z=" + fmt(zz) + " in segment " + std::to_string(i) + " maps to y=" + fmt(yy) + " outside [" + fmt(Y[i]) + "," + fmt(Y[i + 1]) + "]", std::to_string(id));
-        double y0 = Y[i] + dy * f;
-        double z1 = a->transformToRawValue(y0);
-        double y2 = a->rawToTransformValue(z1);
-        C.eval();
-        double toly = 1e-12 * (std::max({1., std::fabs(Y[i]), std::fabs(Y[i + 1])}) + dy * std::max(std::fabs(Z[i]), std::fabs(Z[i + 1])) / dz);
-        if (!(std::fabs(y2 - y0) <= toly))
-          C.violation("empirical-anam:y-z-y", desc + ": y=" + fmt(y0) + " (segment " + std::to_string(i) + ") -> z=" + fmt(z1) + " -> y'=" + fmt(y2), std::to_string(id));
-      }
-    }
-    // monotone (non-decreasing) in both directions over the whole reported interval and beyond (clamped)
-    {
-      double prev = -1e300; int bad = 0;
-      for (int k = -8; k <= 264; k++)
-      {
-        double zz = Z[0] + zrange * (k / 256.);
-        double yy = a->rawToTransformValue(zz);
-        C.eval();
-        if (yy < prev - YTOL) bad++;
-        prev = yy;
-      }
-      double yr = ymax - ymin;
-      prev = -1e300;
-      for (int k = -8; k <= 264; k++)
-      {
-        double yy = ymin + yr * (k / 256.);
-        double zz = a->transformToRawValue(yy);
-        C.eval();
-        if (zz < prev - 1e-12 * zscale) bad++;
-        prev = zz;
-      }
-      if (bad) C.violation("empirical-anam:monotone", desc + ": " + std::to_string(bad) + " decreasing steps on the 256-point ladders of the reported interval", std::to_string(id));
-    }
-    // data values themselves (normal score mode: every datum is a knot): z -> y -> z exactly
-    if (mode == 0)
-      for (double v : D.z)
-      {
-        double yy = a->rawToTransformValue(v);
-        double z2 = a->transformToRawValue(yy);
-        C.eval();
-        if (z2 != v) C.violation("empirical-anam:datum", desc + ": datum z=" + fmt(v) + " -> y=" + fmt(yy) + " -> z'=" + fmt(z2) + " (a knot of the table must come back exactly)", std::to_string(id));
-      }
-    // vector interface keeps TEST
-    {
-      VectorDouble yv = a->rawToGaussianVector(z), zv = a->gaussianToRawVector(yv);
-      bool ok = yv.size() == z.size() && zv.size() == z.size();
-      for (size_t i = 0; ok && i < z.size(); i++) ok = FFFF(z[i]) ? (FFFF(yv[i]) && FFFF(zv[i])) : (yv[i] == a->rawToTransformValue(z[i]) && zv[i] == a->transformToRawValue(yv[i]));
-      C.eval();
-      if (!ok) C.violation("empirical-anam:vector-interface", desc + ": vector calls differ from scalar calls or lose TEST", std::to_string(id));
-    }
+    int n = 0, nseg = 0, nflat = 0;
+    if (!judgeEmpirical(C, a, mode == 0, D.z, z, desc, std::to_string(id), n, nseg, nflat)) { delete a; return; }
     if (nseg >= 2) C.nontrivial(id);
     C.outcome(std::string(mode == 0 ? "normal-score" : mode <= 2 ? "gaussian-dilution" : "lognormal-dilution") + (nseg == 0 ? ":no-increasing-segment" : nflat ? ":with-flat-segments" : ":all-segments-increasing"));
     if (id % 701 == 0) C.sample("{\"data\":" + jstr(D.name) + ",\"mode\":" + std::to_string(mode) + ",\"nclass\":" + std::to_string(n) + ",\"increasing_segments\":" + std::to_string(nseg) + ",\"flat_segments\":" + std::to_string(nflat) + "}");
@@ -1058,10 +1074,11 @@ static std::vector<std::vector<double>> rowMenu(const std::vector<double>& alpha
 }
 
 // runs one PCA/MAF case; rows = fitting data (in order); variant 1 adds a heterotopic row and a masked wild row
-static void factorCase(Ctx& C, bool maf, const std::vector<std::vector<double>>& rows, int nvar, int variant, const std::string& kase, uint64_t sig)
+// 'given' (optional): judge an already computed object (returned code givenErr) instead of computing a fresh one
+static void factorCase(Ctx& C, bool maf, const std::vector<std::vector<double>>& rows, int nvar, int variant, const std::string& kase, uint64_t sig, PCA* given = nullptr, int givenErr = 0)
 {
   const char* what = maf ? "MAF" : "PCA";
-  std::string K = maf ? "maf" : "pca";
+  std::string K = KEYPFX.empty() ? std::string(maf ? "maf" : "pca") : KEYPFX.substr(0, KEYPFX.size() - 1);
   std::vector<std::vector<double>> all = rows;
   std::vector<double> sel(rows.size(), 1.);
   std::vector<bool> fit(rows.size(), true);
@@ -1092,8 +1109,9 @@ static void factorCase(Ctx& C, bool maf, const std::vector<std::vector<double>>&
   bool deficient = S.n < 2 || !(S.lmin > 1e-12L * S.lmax) || !(S.lmax > 0);
   LD kappa = deficient ? 0 : S.lmax / S.lmin;
 
-  PCA pca;
-  int err = maf ? pca.maf_compute_interval(db, 0.5, 1.5) : pca.pca_compute(db);
+  PCA local;
+  PCA& pca = given ? *given : local;
+  int err = given ? givenErr : (maf ? pca.maf_compute_interval(db, 0.5, 1.5) : pca.pca_compute(db));
   C.eval();
   if (deficient)
   {
@@ -1771,9 +1789,11 @@ VF_PART(factor_db_layout)
 }
 
 // ================================================================================================
-// PART 13: object REUSE. Histories of 2..3 fits on ONE object; after the last fit the reused object must answer exactly as
-// a FRESH object on which only the last fit was performed (bitwise: both execute the same arithmetic). E2-style, but the
-// histories are short enough to be enumerated as a product space.
+// PART 13: object REUSE. Histories of 2..3 fits on ONE object; after the last step the C18 clauses (round trips inside the
+// reported interval, monotonicity, factor statistics, orthonormality) are judged on the REUSED object with respect to the data
+// of its last fit, with the judging functions of the per-fit parts. Whether the reused object is bitwise equal to a FRESH
+// object on which only the last fit was performed is recorded in the histogram only (info:...): "incremental = fresh" is the
+// subject of C10, not of C18. E2-style, but the histories are short enough to be enumerated as a product space.
 // VH::normalScore is a static function without state: nothing to reuse.
 // AnamDiscreteDD / AnamDiscreteIR are not raw<->Gaussian transforms (no inverse, C18 names Hermite and empirical only): not driven.
 struct Obs { std::vector<std::pair<std::string, std::vector<double>>> f; void add(const std::string& n, const std::vector<double>& v) { f.push_back({n, v}); } };
@@ -1919,20 +1939,26 @@ VF_PART(reuse)
       bool nvarChange = false;
       for (int k = 0; k + 1 < len; k++) if (FD[ix[2 * k]].nvar != last.nvar) nvarChange = true;
       std::string cls = std::string("len") + std::to_string(len) + (nvarChange ? ":nvar-changes" : ":same-nvar");
-      if (ef != rets.back())
+      if (ef != rets.back()) C.outcome("info:reused-object-differs-from-fresh:pca:return-code");
+      if (rets.back())
       {
-        C.outcome("pca:" + cls + ":RETURN-CODE-DIFFERS");
-        C.violation("reuse:pca:" + ops + ":return-code", "one PCA object, " + hist + ": the last compute returns " + std::to_string(rets.back()) + ", a fresh object returns " + std::to_string(ef), kase);
+        // a refused compute: accepted when the data are rank deficient (judged inside factorCase), counted
+        KEYPFX = "reuse:pca:" + ops + ":";
+        factorCase(C, lop == 1, last.rows, last.nvar, last.extra ? 1 : 0, kase, Hash().i(len).u(id).h, &reused, rets.back());
+        KEYPFX.clear();
         return;
       }
-      if (ef) { C.skip(); C.outcome("pca:" + cls + ":last-compute-refused-by-both"); return; }
+      if (ef) { C.outcome("pca:" + cls + ":fresh-refuses-reused-accepts"); }
       Obs a = factorObs(reused, last, lop == 1), b = factorObs(fresh, last, lop == 1);
       std::string detail, w = obsDiff(a, b, detail);
       bool firstFailed = false; for (int k = 0; k + 1 < len; k++) if (rets[k]) firstFailed = true;
-      C.outcome("pca:" + cls + (firstFailed ? ":after-a-refused-compute" : "") + (w.empty() ? ":equal-to-fresh" : ":DIFFERS"));
-      if (!w.empty())
-        C.violation("reuse:pca:" + ops + ":" + w, "one PCA object, " + hist + ": " + detail + " (fresh = a new PCA object on which only the last call is made)", kase);
-      C.nontrivial(Hash().i(len).u(id).h);
+      // "differs from a fresh object" is histogram information only (incremental-vs-fresh is the subject of C10)
+      C.outcome(w.empty() ? "info:reused-object-equals-fresh:pca" : "info:reused-object-differs-from-fresh:pca:" + w);
+      C.outcome("pca:" + cls + (firstFailed ? ":after-a-refused-compute" : ""));
+      // the C18 clauses on the REUSED object, with respect to the data of its last compute
+      KEYPFX = "reuse:pca:" + ops + ":";
+      factorCase(C, lop == 1, last.rows, last.nvar, last.extra ? 1 : 0, kase, Hash().i(len).u(id).h, &reused, rets.back());
+      KEYPFX.clear();
       if (id % 1201 == 0) C.sample("{\"class\":\"PCA\",\"history\":" + jstr(hist) + "}");
     });
   }
@@ -1958,6 +1984,14 @@ VF_PART(reuse)
     if (AnamEmpirical* e = dynamic_cast<AnamEmpirical*>(a)) e->reset(cls == 4 ? 12 : 100, -1, 1, 1, 3, -1, 1, 1, 3, cls == 4 ? 0.25 : TEST, VectorDouble(cls == 4 ? 12 : 100, 0.), VectorDouble(cls == 4 ? 12 : 100, 0.));
   };
   auto safeFit = [&](AnamContinuous* a, const VectorDouble& d, bool& thrown) { thrown = false; int e = 0; try { e = a->fitFromArray(d); } catch (...) { thrown = true; e = -99; } return e; };
+  // C18 clauses on a (re)fitted object with respect to the data of its last fit: the judging functions of parts anam_hermite / anam_empirical
+  auto judgeClauses = [&](AnamContinuous* a, int cls, const VectorDouble& data, const std::string& steps, const std::string& hist, const std::string& kase, uint64_t sig) {
+    KEYPFX = std::string("reuse:") + CLS[cls] + ":" + steps + ":";
+    if (AnamHermite* h = dynamic_cast<AnamHermite*>(a)) judgeHermite(C, h, hist, kase, sig, data);
+    if (AnamEmpirical* e = dynamic_cast<AnamEmpirical*>(a)) { int n, nseg, nflat; (void)judgeEmpirical(C, e, cls == 2, data, data, hist, kase, n, nseg, nflat); }
+    KEYPFX.clear();
+  };
+  auto info = [&](int cls, const std::string& w) { C.outcome(w.empty() ? std::string("info:reused-object-equals-fresh:") + CLS[cls] : std::string("info:reused-object-differs-from-fresh:") + CLS[cls] + ":" + w); };
   {
     // len 2: fit A, fit B
     Space sp; sp.axis("class", 5).axis("dataA", na).axis("dataB", na);
@@ -1971,15 +2005,13 @@ VF_PART(reuse)
       int e2 = safeFit(r, AD[ix[2]], t2);
       int ef = safeFit(f, AD[ix[2]], t3);
       C.eval();
-      std::string K = std::string("reuse:") + CLS[cls] + ":fit>fit:";
-      if (e2 != ef) { C.outcome(std::string(CLS[cls]) + ":len2:RETURN-CODE-DIFFERS"); C.violation(K + "return-code", hist + ": the second fit returns " + std::to_string(e2) + (t2 ? " (exception)" : "") + ", a fresh object returns " + std::to_string(ef), kase); }
-      else if (ef) { C.skip(); C.outcome(std::string(CLS[cls]) + ":len2:last-fit-refused-by-both"); }
+      if (e2 != ef) info(cls, "return-code");
+      if (e2) { C.skip(); C.outcome(std::string(CLS[cls]) + ":len2:last-fit-refused" + (t2 ? "(exception)" : "") + (ef ? "-by-both" : "-by-the-reused-object-only")); }
       else
       {
-        Obs a = contObs(r), b = contObs(f);
-        std::string detail, w = obsDiff(a, b, detail);
-        C.outcome(std::string(CLS[cls]) + ":len2" + (ix[1] == ix[2] ? ":same-data-twice" : "") + (e1 ? ":after-a-refused-fit" : "") + (w.empty() ? ":equal-to-fresh" : ":DIFFERS"));
-        if (!w.empty()) C.violation(K + w, hist + ": " + detail, kase);
+        if (!ef) { Obs a = contObs(r), b = contObs(f); std::string detail, w = obsDiff(a, b, detail); info(cls, w); }
+        C.outcome(std::string(CLS[cls]) + ":len2" + (ix[1] == ix[2] ? ":same-data-twice" : "") + (e1 ? ":after-a-refused-fit" : ""));
+        judgeClauses(r, cls, AD[ix[2]], "fit>fit", hist, kase, Hash().i(20).u(id).h);
         C.nontrivial(Hash().i(20).u(id).h);
       }
       delete r; delete f;
@@ -2010,21 +2042,21 @@ VF_PART(reuse)
       int e3 = safeFit(target, AD[ix[4]], t);
       int ef = safeFit(f, AD[ix[4]], t);
       C.eval();
-      std::string K = std::string("reuse:") + CLS[cls] + ":" + MID[mid] + ">fit:";   // key = the last two steps
-      if (e3 != ef) { C.outcome(std::string(CLS[cls]) + ":len3:RETURN-CODE-DIFFERS"); C.violation(K + "return-code", hist + ": the last fit returns " + std::to_string(e3) + ", a fresh object returns " + std::to_string(ef), kase); }
-      else if (ef) { C.skip(); C.outcome(std::string(CLS[cls]) + ":len3:last-fit-refused-by-both"); }
+      std::string steps = std::string(MID[mid]) + ">fit";   // key = the last two steps
+      if (e3 != ef) info(cls, "return-code");
+      if (e3) { C.skip(); C.outcome(std::string(CLS[cls]) + ":len3:last-fit-refused" + (ef ? "-by-both" : "-by-the-reused-object-only")); }
       else
       {
-        Obs a = contObs(target), b = contObs(f);
-        std::string detail, w = obsDiff(a, b, detail);
-        C.outcome(std::string(CLS[cls]) + ":len3:" + MID[mid] + (w.empty() ? ":equal-to-fresh" : ":DIFFERS"));
-        if (!w.empty()) C.violation(K + w, hist + ": " + detail, kase);
+        if (!ef) { Obs a = contObs(target), b = contObs(f); std::string detail, w = obsDiff(a, b, detail); info(cls, w); }
+        C.outcome(std::string(CLS[cls]) + ":len3:" + MID[mid]);
+        judgeClauses(target, cls, AD[ix[4]], steps, hist, kase, Hash().i(30).u(id).h);
         if (mid == 2 && !e1)
         {
-          // the original must not be affected by what is done to its copy
+          // the original is still the transform fitted on the first data set: its clauses must still hold after its copy was refitted
           Obs after = contObs(r);
           std::string d2, w2 = obsDiff(after, before, d2);
-          if (!w2.empty()) C.violation(std::string("reuse:") + CLS[cls] + ":copy-not-independent:" + w2, hist + ": the ORIGINAL object changed: " + d2, kase);
+          C.outcome(w2.empty() ? "info:original-unchanged-by-refit-of-its-copy" : "info:original-CHANGED-by-refit-of-its-copy:" + w2);
+          judgeClauses(r, cls, AD[ix[1]], "copy>fit(original)", hist + " [judging the ORIGINAL object]", kase, Hash().i(31).u(id).h);
         }
         C.nontrivial(Hash().i(30).u(id).h);
       }
@@ -2078,8 +2110,34 @@ VF_PART(reuse)
         C.eval();
         Obs a = robs(R, ndim), b = robs(F, ndim);
         std::string detail, w = obsDiff(a, b, detail);
-        C.outcome(std::string("rotation:len") + std::to_string(len) + (w.empty() ? ":equal-to-fresh" : ":DIFFERS"));
-        if (!w.empty()) C.violation("reuse:rotation:" + ops + ":" + w, "one Rotation(ndim=" + std::to_string(ndim) + ") object, operations " + ops + " (case " + kase + "): " + detail, kase);
+        C.outcome(w.empty() ? "info:reused-object-equals-fresh:rotation" : "info:reused-object-differs-from-fresh:rotation:" + w);
+        C.outcome(std::string("rotation:len") + std::to_string(len));
+        // C18 clauses on the reused object: orthonormal, det +1, direct o inverse = identity (both orders)
+        {
+          std::string K = "reuse:rotation:" + ops + ":", desc = "one Rotation(ndim=" + std::to_string(ndim) + ") object, operations ending with " + ops;
+          const MatrixSquareGeneral& A = R.getMatrixDirect();
+          LD det;
+          if (ndim == 2) det = (LD)A.getValue(0, 0) * A.getValue(1, 1) - (LD)A.getValue(0, 1) * A.getValue(1, 0);
+          else det = (LD)A.getValue(0, 0) * ((LD)A.getValue(1, 1) * A.getValue(2, 2) - (LD)A.getValue(1, 2) * A.getValue(2, 1))
+                   - (LD)A.getValue(0, 1) * ((LD)A.getValue(1, 0) * A.getValue(2, 2) - (LD)A.getValue(1, 2) * A.getValue(2, 0))
+                   + (LD)A.getValue(0, 2) * ((LD)A.getValue(1, 0) * A.getValue(2, 1) - (LD)A.getValue(1, 1) * A.getValue(2, 0));
+          if (fabsl(det - 1) > 1e-12L) C.violation(K + "det", desc + ": determinant " + fmt((double)det), kase);
+          bool ortho = true;
+          for (int i = 0; i < ndim; i++) for (int j = 0; j < ndim; j++)
+          {
+            LD sdot = 0; for (int k = 0; k < ndim; k++) sdot += (LD)A.getValue(i, k) * A.getValue(j, k);
+            if (fabsl(sdot - (i == j)) > 1e-12L) ortho = false;
+          }
+          if (!ortho) C.violation(K + "orthonormal", desc + ": direct matrix " + vstr(A.getValues()) + " is not orthonormal", kase);
+          VectorDouble v(ndim), w1(ndim), u(ndim);
+          for (int k = 0; k < ndim; k++) v[k] = 1 + 2 * k;
+          R.rotateDirect(v, w1); R.rotateInverse(w1, u);
+          bool ok = true; for (int k = 0; k < ndim; k++) if (std::fabs(u[k] - v[k]) > 16e-12) ok = false;
+          if (!ok) C.violation(K + "inverse-of-direct", desc + ": rotateInverse(rotateDirect(" + vstr(v) + "))=" + vstr(u), kase);
+          R.rotateInverse(v, w1); R.rotateDirect(w1, u);
+          ok = true; for (int k = 0; k < ndim; k++) if (std::fabs(u[k] - v[k]) > 16e-12) ok = false;
+          if (!ok) C.violation(K + "direct-of-inverse", desc + ": rotateDirect(rotateInverse(" + vstr(v) + "))=" + vstr(u), kase);
+        }
         C.nontrivial(Hash().i(40 + len).u(id).h);
       });
     }
